@@ -31,6 +31,7 @@ package PKG
 import (
 	"encoding/json"
 	"fmt"
+	"math/rand"
 	"os"
 	"reflect"
 	"strings"
@@ -353,6 +354,60 @@ func TestVerifReplay(t *testing.T) {
 			break
 		}
 	}
+	// phase 2: seeded random search over a richer alphabet (all hex digits, both cases) with longer
+	// strings, biased towards the harvested special characters
+	seed := int64(1)
+	fmt.Sscanf(os.Getenv("VERIF_SEED"), "%d", &seed)
+	rng := rand.New(rand.NewSource(seed + 12345))
+	rich := append(append([]byte{}, alpha...), []byte("0123456789abcdefABCDEF")...)
+	var special []byte
+	for _, c := range alpha {
+		if !(c >= '0' && c <= '9' || c >= 'a' && c <= 'z' || c >= 'A' && c <= 'Z') {
+			special = append(special, c)
+		}
+	}
+	randStr := func() string {
+		n := rng.Intn(10)
+		b := make([]byte, n)
+		for i := range b {
+			if len(special) > 0 && rng.Intn(10) < 3 {
+				b[i] = special[rng.Intn(len(special))]
+			} else {
+				b[i] = rich[rng.Intn(len(rich))]
+			}
+		}
+		return string(b)
+	}
+	hasString := false
+	for i := 0; i < ft.NumIn(); i++ {
+		if ft.In(i).Kind() == reflect.String {
+			hasString = true
+		}
+	}
+	deadline = time.Now().Add(15 * time.Second)
+	for hasString && time.Now().Before(deadline) {
+		for rep := 0; rep < 2048; rep++ {
+			in := make([]reflect.Value, len(doms))
+			for i := range doms {
+				if ft.In(i).Kind() == reflect.String {
+					in[i] = reflect.ValueOf(randStr()).Convert(ft.In(i))
+				} else {
+					in[i] = verifDeepCopy(doms[i][rng.Intn(len(doms[i]))])
+				}
+			}
+			var shown []string
+			for _, v := range in {
+				shown = append(shown, verifShow(v))
+			}
+			failed, observed := verifTry(tg, in)
+			tried++
+			if failed != "" {
+				b, _ := json.Marshal(map[string]any{"status": "confirmed", "found_by": "seeded-random-search", "inputs": shown, "failed": failed, "observed": observed, "tried": tried})
+				fmt.Printf("VERIF-REPLAY: %s\n", b)
+				return
+			}
+		}
+	}
 	fmt.Printf("VERIF-REPLAY: {\"status\":\"not-found\",\"tried\":%d}\n", tried)
 }
 `
@@ -561,7 +616,7 @@ func (e *Engine) findCounterexample(fc *FuncContract, opt CheckOptions) map[stri
 	if opt.Tier == "thorough" {
 		maxLen = "6"
 	}
-	out, err := runOverlayTest(opt.RepoDir, pkgDir, overlay, "TestVerifReplay$", []string{"VERIF_TARGET=" + fc.Key, "VERIF_ALPHABET=" + alpha, "VERIF_MAXLEN=" + maxLen}, 60*time.Second)
+	out, err := runOverlayTest(opt.RepoDir, pkgDir, overlay, "TestVerifReplay$", []string{"VERIF_TARGET=" + fc.Key, "VERIF_ALPHABET=" + alpha, "VERIF_MAXLEN=" + maxLen, fmt.Sprintf("VERIF_SEED=%d", opt.Seed)}, 60*time.Second)
 	res := map[string]any{"search": map[string]any{"alphabet": alpha, "max_len": maxLen, "target": fc.Key}}
 	for _, ln := range strings.Split(out, "\n") {
 		if strings.HasPrefix(ln, "VERIF-REPLAY: ") {
